@@ -8,7 +8,7 @@ cd /verif
 PROPS=${MATRIX_PROPS:-$(python3 -c "import json;print(' '.join(c['property_id'] for c in json.load(open('MANIFEST.json'))['checks']))")}
 OUT=${MATRIX_OUT:-/verif/seeded/MATRIX.tsv}
 SEEDS="$@"
-[ -z "$SEEDS" ] && SEEDS=$(ls seeded | grep -v MATRIX)
+[ -z "$SEEDS" ] && SEEDS=$(cd seeded && ls -d */ | tr -d /)
 mkdir -p /tmp/mx
 one() {
   s=$1
